@@ -280,6 +280,23 @@ def readonly_rule(prog, chk):
         c = cfg_of(b)
         guards = _readonly_guards(b)
         has = any(c.dominates(g, bb) for g, _ in guards) or bool(call_sites(b, {SV + "::is_readonly"}))
+        if not has:
+            # `opt.is_some_and(|v| v.is_readonly())` / `.map(|v| v.is_readonly())` idiom: a dominating switch whose
+            # discriminant comes from a call taking a closure that calls is_readonly, true edge cannot reach the set
+            d = defs_of(b)
+            for bl in b.blocks:
+                t2 = bl.term
+                if t2.kind != "switch" or not c.dominates(bl.idx, bb):
+                    continue
+                for o in origins(b, d, t2.discr, transparent=set()):
+                    if o.kind != 'call':
+                        continue
+                    for a in o.node.args:
+                        for oo in origins(b, d, a):
+                            if oo.kind == 'agg' and oo.node.raw.get("ak") == "closure":
+                                cb = prog.body(canon(oo.node.raw["def"]))
+                                if cb is not None and call_sites(cb, {SV + "::is_readonly"}) and bb not in c.reachable_from(t2.otherwise):
+                                    has = True
         if fn == "brush_core::env::ShellEnvironment::unset":
             chk.ok("R9.1c", "set@" + fn, "tombstone written only after try_unset_in_map succeeded (R9.1u)", function=fn)
         elif has:
